@@ -828,13 +828,39 @@ def tconds(fn, n, keep=()):
     class _NoWalrus(ast.NodeTransformer):
         def visit_NamedExpr(self, x):
             return self.visit(x.value)
-    out = set()
+    lits = []
     for t, b in guards(n):
         tt = truth_nnf(_NoWalrus().visit(clone(trace(fn, t, keep=keep))), neg=not b)
         for v in (tt.values if isinstance(tt, ast.BoolOp) and isinstance(tt.op, ast.And) else [tt]):
             if not (isinstance(v, ast.Constant) and v.value is True):
-                out.add(norm(v))
-    return out
+                lits.append(v)
+    # the conjuncts hold together: a simple one (`x`, `not x`, `x is None`) is a fact under which the others are simplified
+    # (`(None if raised else T) if v else None) >= K` with the facts `v`, `not raised` is `T >= K`)
+    for _ in range(3):
+        facts = {}
+        for v in lits:
+            if isinstance(v, ast.UnaryOp) and isinstance(v.op, ast.Not) and not isinstance(v.operand, (ast.BoolOp, ast.IfExp)):
+                facts[norm(v.operand)] = False
+            elif isinstance(v, (ast.Name, ast.Attribute, ast.Call, ast.Subscript)):
+                facts[norm(v)] = True
+        if not facts:
+            break
+        new = []
+        changed = False
+        for v in lits:
+            if norm(v) in facts or (isinstance(v, ast.UnaryOp) and isinstance(v.op, ast.Not) and norm(v.operand) in facts):
+                new.append(v)
+                continue
+            v2 = truth_nnf(specialize(v, facts))
+            if norm(v2) != norm(v):
+                changed = True
+            for w in (v2.values if isinstance(v2, ast.BoolOp) and isinstance(v2.op, ast.And) else [v2]):
+                if not (isinstance(w, ast.Constant) and w.value is True):
+                    new.append(w)
+        lits = new
+        if not changed:
+            break
+    return {norm(v) for v in lits}
 
 
 def tliterals(fn, n, keep=()):
